@@ -16,7 +16,7 @@ func init() {
 		ID:    "C08",
 		Level: "exploration",
 		Rule: "program = 3 rule slots over phases {1,2,5} (quick); thorough: 3 slots over {1,2,5} with every marker/engine combination, 3 slots over all five phases, 4 slots over a reduced action menu; each slot = (phase) x (action in {pass, skip:1, skip:2, skipAfter:M1, skipAfter:ABSENT, allow, allow:request, allow:phase, deny, deny+skip:1, deny+skipAfter:ABSENT}) x (chain of 1 or 2 links), " +
-			"plus marker M1 at every position or absent, engine On / DetectionOnly; slot i (and each chain link) matches iff its own request bit is set; requests = all bit vectors; " +
+			"plus marker M1 at every position or absent, engine On / DetectionOnly; a further family of 3 slots over {pass, allow, allow:request, allow:phase, deny, skip:1, ctl:ruleEngine=On, ctl:ruleEngine=DetectionOnly} (the mode in force when allow / deny run decides); slot i (and each chain link) matches iff its own request bit is set; requests = all bit vectors; " +
 			"every (program, request) is driven through all five phases on the real engine and compared with a flow interpreter restating the property: exact list of fired rules and the interruption; " +
 			"distinct_nontrivial = distinct (program, request) in which at least one flow action (skip/skipAfter/allow/deny) was executed by the model",
 		Assumptions: []string{
@@ -160,6 +160,10 @@ func model(p program, bits []bool) (fired []int, itr int, specified bool, flow b
 			for _, act := range strings.Split(s.Action, ",") {
 				switch {
 				case act == "pass":
+				case act == "ctl:ruleEngine=On":
+					on = true
+				case act == "ctl:ruleEngine=DetectionOnly":
+					on = false
 				case strings.HasPrefix(act, "skip:"):
 					flow = true
 					fmt.Sscanf(act, "skip:%d", &skip)
@@ -219,6 +223,8 @@ type family struct {
 	detOnly  []int // marker positions also generated under DetectionOnly
 }
 
+var actionsEngine = []string{"pass", "allow", "allow:request", "allow:phase", "deny", "skip:1", "ctl:ruleEngine=On", "ctl:ruleEngine=DetectionOnly"}
+
 var actionsReduced = []string{"pass", "skip:1", "skipAfter:M1", "skipAfter:ABSENT", "allow", "allow:phase", "deny"}
 
 func programs(thorough bool, emit func(p program)) {
@@ -226,8 +232,13 @@ func programs(thorough bool, emit func(p program)) {
 		// quick: 3 slots over phases 1, 2 and logging
 		{n: 3, phases: []int{1, 2, 5}, actions: actionsQuick, combined: "first", markers: []int{-1, 0, 1, 3}, detOnly: []int{-1}},
 	}
+	// the engine mode switched by ctl in the middle of a transaction: what allow / deny do is decided by the mode
+	// in force when they run (an allow seen in DetectionOnly is dropped for good)
+	engineFam := family{n: 3, phases: []int{1, 2, 5}, actions: actionsEngine, combined: "first", markers: []int{-1}, detOnly: []int{-1}}
+	fams = append(fams, engineFam)
 	if thorough {
 		fams = []family{
+			engineFam,
 			{n: 3, phases: []int{1, 2, 5}, actions: actionsQuick, combined: "any", markers: []int{-1, 0, 1, 2, 3}, detOnly: []int{-1, 0, 1, 2, 3}},
 			// all five phases with three slots
 			{n: 3, phases: []int{1, 2, 3, 4, 5}, actions: actionsQuick, combined: "first", markers: []int{-1, 0, 2}, detOnly: []int{-1}},
